@@ -4,7 +4,7 @@
    Repository.ParseReference and must build its URLs from the *resolved* reference
    (tag@digest drops the tag, fully-qualified forms drop the base).  Executable model
    only; theorems in Proofs/RefOps.v. *)
-From Oras Require Import Base.Prelude Base.Regex Generated.GC20 Model.Reference.
+From Oras Require Import Base.Prelude Base.Regex Generated.GC20 Model.NetURL Model.Reference.
 
 Inductive refop :=
 | OpMResolve      (* manifestStore.Resolve        : HEAD manifests/<ref> *)
@@ -56,3 +56,122 @@ Definition op_requests_verdict (avail : str -> bool) (op : refop) (plain : bool)
   | VErr => ORefused
   | VUnjudged => OUnjudged
   end.
+
+(* ---------- operations that build their URL from the base repository and a DESCRIPTOR ----------
+   (registry/remote/repository.go: manifestStore / blobStore Fetch, Exists, Delete; blobStore.Mount
+   and Push; Repository.Referrers via the Referrers API; Repository.Tags).  The digest [d] is
+   target.Digest.String(), used as it is.  Requests carry a query only where documented:
+   referrers: artifactType=<filter> [&n=<page size>]; tags: [n=<page size>][&last=<tag>]
+   (setQueryParams appends in that order); mount: mount=<digest>&from=<repository>. *)
+Inductive descop :=
+| DMFetch | DMDelete                 (* manifests/<d> : GET / DELETE (referrers API supported) *)
+| DBFetch | DBDelete                 (* blobs/<d>     : GET / DELETE;  Exists is Resolve(d): covered by OpMResolve / OpBResolve *)
+| DReferrers                         (* GET referrers/<d>?artifactType=a1&n=num *)
+| DMount                             (* POST blobs/uploads/?mount=<d>&from=a1 *)
+| DBPush                             (* POST blobs/uploads/ *)
+| DTags.                             (* GET tags/list?n=num&last=a1 *)
+
+Definition m_delete := b "DELETE".
+Definition m_post := b "POST".
+
+Fixpoint join_amp (l : list str) : str :=
+  match l with
+  | [] => []
+  | [x] => x
+  | x :: r => x ++ [38] ++ join_amp r
+  end.
+(* escaped key '=' escaped value, joined by '&' (url.Values.Encode for one key; setQueryParams) *)
+Definition encode_params (ps : list (str * str)) : str :=
+  join_amp (map (fun kv => query_escape (fst kv) ++ [61] ++ query_escape (snd kv)) ps).
+Definition with_query (u : str) (ps : list (str * str)) : str :=
+  match ps with [] => u | _ => u ++ [c_qm] ++ encode_params ps end.
+Definition opt_param (k v : str) : list (str * str) := match v with [] => [] | _ => [(k, v)] end.
+
+(* [num] is the page size printed by strconv.Itoa, empty when it is not set (<= 0) *)
+Definition desc_op_requests (op : descop) (plain : bool) (base : reference) (d a1 num : str)
+  : list (str * str) :=
+  let r := mkRef (r_registry base) (r_repository base) d in
+  match op with
+  | DMFetch => [(m_get, url_manifest plain r)]
+  | DMDelete => [(m_delete, url_manifest plain r)]
+  | DBFetch => [(m_get, url_blob plain r)]
+  | DBDelete => [(m_delete, url_blob plain r)]
+  | DReferrers => [(m_get, with_query (url_referrers plain r) (opt_param (b "artifactType") a1 ++ opt_param (b "n") num))]
+  | DMount => [(m_post, url_upload plain r ++ b "?mount=" ++ d ++ b "&from=" ++ a1)]
+  | DBPush => [(m_post, url_upload plain r)]
+  | DTags => [(m_get, with_query (url_taglist plain r) (opt_param (b "n") num ++ opt_param (b "last") a1))]
+  end.
+
+(* url.ParseQuery restricted to what encode_params produces: split at '&', cut at the first '=',
+   QueryUnescape both sides *)
+Fixpoint parse_params (l : list str) : option (list (str * str)) :=
+  match l with
+  | [] => Some []
+  | p :: r =>
+      match split_first 61 p with
+      | None => None
+      | Some (k, v) =>
+          match query_unescape k, query_unescape v, parse_params r with
+          | Some k', Some v', Some r' => Some ((k', v') :: r')
+          | _, _, _ => None
+          end
+      end
+  end.
+Definition parse_query (q : str) : option (list (str * str)) := parse_params (split_on 38 q).
+
+(* ---------- how a Repository / Registry value comes to exist, and the Registry's own requests ----------
+   remote.NewRepository(s): registry.ParseReference(s), the whole parsed reference is the base;
+   remote.NewRegistry(name): ValidateRegistry;  Registry.Repository(ctx, name): the registry's name
+   plus ValidateRepository(name);  Registry.Ping: GET <base URL>;  Registry.Repositories(last):
+   GET <catalog URL>[?n=<page size>][&last=<last>]. *)
+Section Constructors.
+  Variable avail : str -> bool.
+  Variable valid_registry : str -> bool.
+  Definition new_repository (s : str) : option reference := parse avail valid_registry s.
+  Definition new_registry (name : str) : option str := if valid_registry name then Some name else None.
+  Definition registry_repository (reg name : str) : option reference :=
+    if valid_repository name then Some (mkRef reg name []) else None.
+End Constructors.
+
+Inductive regop := RPing | RCatalog.
+Definition reg_op_requests (op : regop) (plain : bool) (reg a1 num : str) : list (str * str) :=
+  let r := mkRef reg [] [] in
+  match op with
+  | RPing => [(m_get, url_base plain r)]
+  | RCatalog => [(m_get, with_query (url_catalog plain r) (opt_param (b "n") num ++ opt_param (b "last") a1))]
+  end.
+
+(* ---------- the top-level oras.Tag / oras.TagN on a remote Repository (content.go) ----------
+   ReferenceFetcher + ReferencePusher path: FetchReference(src) -- GET manifests/<resolved src>,
+   which fails when src is a digest other than the one the registry serves -- then
+   PushReference(dst) for each destination in turn (TagN with Concurrency 1), stopping at the
+   first destination the Repository refuses.  [served] = digest of what the registry returns. *)
+Section Compound.
+  Variable avail : str -> bool.
+  Variable valid_registry : str -> bool.
+  Variable plain : bool.
+  Variables breg brepo : str.
+
+  Fixpoint put_until_refused (dsts : list str) : list (str * str) :=
+    match dsts with
+    | [] => []
+    | dst :: rest =>
+        match repo_parse avail valid_registry breg brepo dst with
+        | Some r2 => (m_put, url_manifest plain r2) :: put_until_refused rest
+        | None => []
+        end
+    end.
+
+  Definition fetch_ok (r : reference) (served : str) : bool :=
+    if valid_digest avail (r_reference r) then str_eqb (r_reference r) served else true.
+
+  Definition oras_tag_requests (src : str) (dsts : list str) (served : str) : list (str * str) :=
+    match dsts with
+    | [] => []
+    | _ =>
+        match repo_parse avail valid_registry breg brepo src with
+        | None => []
+        | Some r => (m_get, url_manifest plain r) :: (if fetch_ok r served then put_until_refused dsts else [])
+        end
+    end.
+End Compound.
